@@ -1770,6 +1770,40 @@ func runCopiedRecord(p *Program, c *Collector, cr CopiedRecordSpec) {
 				}
 			}
 		}
+		// or by a helper that is handed the copy and clears the field
+		if !cleared {
+			for _, b := range fn.Blocks {
+				for _, in := range b.Instrs {
+					call, ok := in.(*ssa.Call)
+					if !ok || call.Call.StaticCallee() == nil || !p.IsOwnFunc(call.Call.StaticCallee()) {
+						continue
+					}
+					callee := call.Call.StaticCallee()
+					for i, a := range call.Call.Args {
+						isCopy := a == cell
+						if lg := loadedGlobal(a); lg != nil && p.GlobalKey(lg) == cr.Global && at.Block().Dominates(in.Block()) {
+							isCopy = true
+						}
+						if !isCopy || i >= len(callee.Params) {
+							continue
+						}
+						for _, hb := range callee.Blocks {
+							for _, hin := range hb.Instrs {
+								if st, ok := hin.(*ssa.Store); ok {
+									if fa, ok := st.Addr.(*ssa.FieldAddr); ok && fa.X == ssa.Value(callee.Params[i]) {
+										if name, _ := fieldOf(fa.X.Type(), fa.Field); name == f {
+											if cst, ok := st.Val.(*ssa.Const); ok && (cst.Value == nil || cst.Value.String() == `""`) {
+												cleared = true
+											}
+										}
+									}
+								}
+							}
+						}
+					}
+				}
+			}
+		}
 		if !cleared {
 			missing = f
 		}
